@@ -1198,7 +1198,7 @@ impl<R: std::io::BufRead> FlacStreamReader<R> {
         // slice a frame sync code in half, which needs
         // to be accounted for.
 
-        let (header, mut crc16_reader) = loop {
+        let (header, mut crc16_reader) = 'sync: loop {
             // scan for the first byte of the frame sync
             self.reader.skip_until(0b11111111)?;
 
@@ -1206,30 +1206,37 @@ impl<R: std::io::BufRead> FlacStreamReader<R> {
             // or have reached EOF
 
             // check that the next byte is the other half of a frame sync
-            match self.reader.fill_buf() {
-                Ok([]) => {
-                    return Err(std::io::Error::new(
-                        std::io::ErrorKind::UnexpectedEof,
-                        "eof looking for frame sync",
-                    )
-                    .into());
-                }
-                Ok([byte, ..]) if byte >> 1 == 0b1111100 => {
-                    // got a whole frame sync
-                    // so try to parse a whole frame header
-                    let mut crc_reader: CrcReader<_, Crc16> = CrcReader::new(
-                        std::slice::from_ref(&0b11111111).chain(self.reader.by_ref()),
-                    );
-
-                    if let Ok(header) = FrameHeader::read_subset(&mut crc_reader) {
-                        break (header, crc_reader);
+            loop {
+                match self.reader.fill_buf() {
+                    Ok([]) => {
+                        return Err(std::io::Error::new(
+                            std::io::ErrorKind::UnexpectedEof,
+                            "eof looking for frame sync",
+                        )
+                        .into());
                     }
+                    Ok([byte, ..]) if byte >> 1 == 0b1111100 => {
+                        // got a whole frame sync
+                        // so try to parse a whole frame header
+                        let mut crc_reader: CrcReader<_, Crc16> = CrcReader::new(
+                            std::slice::from_ref(&0b11111111).chain(self.reader.by_ref()),
+                        );
+
+                        match FrameHeader::read_subset(&mut crc_reader) {
+                            Ok(header) => break 'sync (header, crc_reader),
+                            // an error of the source is not a sign of a false sync
+                            Err(Error::Io(e)) if e.kind() != std::io::ErrorKind::UnexpectedEof => {
+                                return Err(e.into());
+                            }
+                            Err(_) => continue 'sync,
+                        }
+                    }
+                    Ok(_) => continue 'sync,
+                    // didn't get the other half of frame sync yet:
+                    // its first half is consumed, so ask for the next byte again
+                    Err(ref e) if e.kind() == std::io::ErrorKind::Interrupted => continue,
+                    Err(e) => return Err(e.into()),
                 }
-                Ok(_) => continue,
-                // didn't get the other half of frame sync,
-                // so continue without consuming anything
-                Err(ref e) if e.kind() == std::io::ErrorKind::Interrupted => continue,
-                Err(e) => return Err(e.into()),
             }
         };
 
